@@ -12,11 +12,18 @@ import (
 var vhFeeSet = []uint64{0, 100, 250, 500, 1000, 2000}
 var vhMinProofs = 1
 var vhForceKs []int
+var vhReload = false
 
 func vhHoldings(maxProofs int, maxExp uint64) (*vhWalletEnv, v.Z, cashu.Proofs) {
 	ppkA := uint(v.PickU64(v.U64("ppk.active"), vhFeeSet...))
 	ppkI := uint(v.PickU64(v.U64("ppk.inactive"), vhFeeSet...))
 	env := vhNewWallet(ppkA, ppkI, 0)
+	if vhReload {
+		// the wallet was restarted: its view of the mint's keysets is rebuilt from the store, as LoadWallet does
+		mints, err := env.w.loadWalletMints()
+		v.Assume(err == nil)
+		env.w.mints = mints
+	}
 	n := v.Int("nProofs", vhMinProofs, maxProofs)
 	total := v.ZU(0)
 	var held cashu.Proofs
@@ -93,6 +100,13 @@ func VHarnessSendC17() {
 	vhSendStep(2, 2)
 }
 func VHarnessSendWide() { vhSendStep(3, 4) }
+
+// the same after a wallet restart (keysets reloaded from the store by the real loadWalletMints)
+func VHarnessSendReloaded() {
+	vhFeeSet = []uint64{0, 100, 1000}
+	vhReload = true
+	vhSendStep(2, 2)
+}
 
 // exactly three proofs spread over both keysets (the smallest holding in which the inactive proofs are taken whole and
 // only a part of the active ones is selected on top of them)
